@@ -124,6 +124,6 @@ fn run(c: &Case) -> Outcome {
 fn main() {
     let check = Check::new("C16", "exploration");
     check.rule("programs of 1-4 streams from the grammar {filter/emit (pass, shift, no emit), tumbling/count/sliding/session windows + aggregate (+having, partition_by), 2-3 step sequences (all, not, partition), 2-way joins, distinct, limit, derived chains/diamonds over pass-like streams} rendered to VPL; <=60 events over A,B,C (ids, keys, ties in timestamps); random batch split (<=6 cuts). Oracle: the normalised output sequence of process() one-by-one equals that of process_batch, process_batch_sync and process_batch_shared for the same split; differences are classified as content (per stream kind), order within a stream, order across streams. Non-trivial = >=2 streams with a derived stream or a join and >=1 output.");
-    check.explore("entry_points", strat, 4_000, 60_000, run);
+    check.explore("entry_points", strat, 10_000, 100_000, run);
     check.finish();
 }
